@@ -324,6 +324,36 @@ func main() {
 		}
 		h.Section("format+row-tails", 1)
 	}
+	// (vi) sequences of up to 3 valid packages in every order (mismatched format / data tokens included)
+	{
+		var atoms [][]byte
+		names := map[string]bool{"orderless-row#0": true, "orderless-row#1": true, "done-final#0": true, "returnstatus-doneproc#0": true, "msg-done#0": true,
+			"envchange-done#0": true, "orderby2-rows#1": true, "eed-info-only#0": true, "capability-done#0": true, "paramfmt-name1": true, "rowfmt-narrow-name1": true, "orderby1": true, "login-negotiation#0": true}
+		for _, e := range entries {
+			if names[e.Name] {
+				atoms = append(atoms, e.Enc)
+			}
+		}
+		atoms = append(atoms, []byte{0xD7, 5}, []byte{0xD7, 1, 0x61}, []byte{0xD1, 1, 0x61})
+		for i, a := range atoms {
+			idx++
+			if !h.Mine(idx) {
+				continue
+			}
+			for _, b := range atoms {
+				add(Case{Kind: "stream", Data: append(append([]byte{}, a...), b...), Name: "pair"}, true)
+				for _, c3 := range atoms {
+					add(Case{Kind: "stream", Data: append(append(append([]byte{}, a...), b...), c3...), Name: "triple"}, true)
+					for _, d := range atoms {
+						if i%2 == 0 || h.Thorough {
+							add(Case{Kind: "stream", Data: append(append(append(append([]byte{}, a...), b...), c3...), d...), Name: "quadruple"}, true)
+						}
+					}
+				}
+			}
+		}
+		h.Section("package-sequences", 1)
+	}
 	// (iv) GoValue: every data type x every length 0..255 x 4 fill patterns
 	for dt := 0; dt < 256; dt++ {
 		idx++
